@@ -1,4 +1,5 @@
 import ErrModel.Transport
+import ErrModel.Generated.DecoderFacts
 /-
   C05 — Decoding is total: no panic, always an error.
   Stated for the repaired tree (/repo fixes 1604c49 barriers, 846f5b2 exthttp/extgrpc,
@@ -67,5 +68,42 @@ theorem C05_barrier_regression :
     (decode Full [1] (.leaf (b!"m") (cexDet k_barrier) [] [])).isSome = true := by decide
 theorem C05_http_regression :
     (decode Full [1] (.wrap [] (cexDet k_withHTTPCode) 0 [] (.leaf (b!"c") (cexDet k_errorString) [] []))).isSome = true := by decide
+
+
+/-! ## The registered decoders, regenerated from the source on every run
+
+`Generated/DecoderFacts.lean` holds one straight-line program per function registered with
+`Register{Leaf,Wrapper,MultiCause}Decoder` in /repo's current source (payload assertions with
+their comma-ok guard, length guards, constant indices).  `DecProg.safe` is a verified checker
+(`DecProg.safe_sound`): an accepted program never panics, whatever the payload's type and
+whatever the lengths of the detail and payload-field slices. -/
+
+/-- every registered decoder passes the checker (re-decided against the current source) -/
+theorem C05_decoder_facts : DecProg.decoders.all (fun d => DecProg.safe [] d.ops) = true := by decide
+
+/-- hence no registered decoder panics on any payload / detail fault -/
+theorem C05_registered_decoders_never_panic (d : DecProg.Decoder) (hd : d ∈ DecProg.decoders) (env : DecProg.Env) :
+    DecProg.run env d.ops ≠ .panic := by
+  have h := List.all_eq_true.mp C05_decoder_facts d hd
+  exact DecProg.safe_sound env d.ops [] (by intro p hp; cases hp) h
+
+/-- the decoder families of the model (`classify`), one per registered decoder -/
+def decoderClasses : List KeyClass :=
+  [.errorString, .deadline, .errno, .leafError, .unimplemented, .barrier, .barrierPrev, .join, .grpcStatus, .gogoStatus,
+   .pkgWithMessage, .pathError, .linkError, .syscallError, .withPrefix, .withNewMessage, .withHint, .withDetail, .withMark,
+   .withSecondary, .withContext, .withHTTPCode, .withGrpcCode, .withDomain, .withIssueLink, .withTelemetry,
+   .withAssertionFailure, .withSafeDetails]
+
+/-- the model has a decoder family for every decoder the source registers (a decoder added to
+    the library without a model counterpart breaks this obligation) -/
+theorem C05_model_covers_registered_decoders : DecProg.decoders.length = decoderClasses.length := by decide
+
+/-- the checker is not vacuous: it rejects the two defect shapes that were repaired (an unchecked
+    assertion; an index beyond the guarded length) and accepts a nested length test -/
+theorem C05_checker_rejects_unchecked : DecProg.safe [] [.assert false] = false := by decide
+theorem C05_checker_rejects_short_guard : DecProg.safe [] [.assert true, .require 0 2, .index 0 2 0] = false := by decide
+theorem C05_checker_panics_witness :
+    DecProg.run ⟨true, fun _ => 2⟩ [.assert true, .require 0 2, .index 0 2 0] = .panic := by decide
+theorem C05_checker_accepts_nested : DecProg.safe [] [.index 0 0 1, .index 0 1 2] = true := by decide
 
 end ErrModel
